@@ -750,8 +750,16 @@ def run(ctx):
         if f is None:
             continue
         ctx.saw_fn(f)
-        for x, x_ln in hirq.inline_local_calls(f.hir["body"], local_fns, lambda n_: n_.get("k") == "bin" and n_["op"] == "^" and "wrapping_add" in hirq.render(n_), depth=1, skip=re.compile(r"::crypto::|::compression::")):
+        # (the sum may be held in a local first: `let shifted = key.wrapping_add(pos); shifted ^ size` is the same expression)
+        sums_ = {l["pat"]["name"]: l["init"] for l in hirq.find(f.hir["body"], "let") if l["pat"].get("k") == "bind" and l.get("init") is not None and hirq.strip(l["init"]).get("k") == "mcall" and hirq.strip(l["init"])["m"] == "wrapping_add"}
+
+        def is_key_xor(n_, sums_=sums_):
+            if n_.get("k") != "bin" or n_["op"] != "^":
+                return False
+            return "wrapping_add" in hirq.render(n_) or any(hirq.strip(o_).get("k") == "path" and (hirq.strip(o_).get("res") or {}).get("local") in sums_ for o_ in (n_["l"], n_["r"]))
+        for x, x_ln in hirq.inline_local_calls(f.hir["body"], local_fns, is_key_xor, depth=1, skip=re.compile(r"::crypto::|::compression::")):
             if True:
+                x = hirq.subst(x, sums_) if sums_ else x
                 x = dict(x, ln=x_ln or x.get("ln"))
                 sy = symx.Sym(consts)
                 e = sy.ev(x)
